@@ -420,6 +420,9 @@ def _only_later_clobbers(stmts: list[ast.stmt], rhs: ast.expr, uses: list[ast.AS
                     and not _clobbers([ast.Expr(value=s.value)], rhs) \
                     and all(_contains(s.value, u) for u in uses if _contains(s, u)) and not isinstance(s, ast.AugAssign):
                 continue  # the right-hand side is evaluated before the store that clobbers
+            if isinstance(s, ast.If) and all(_contains(s.test, u) for u in uses if _contains(s, u)) \
+                    and not _clobbers([ast.Expr(value=s.test)], rhs):
+                continue  # the test is evaluated before anything in the branches
             clob_pos = _first_clobber_pos(s, rhs)
             if clob_pos is None or clob_pos <= use_pos:
                 return False
@@ -914,8 +917,8 @@ def lower(fn: ast.FunctionDef, tuples: bool = True, ifexp: bool = True) -> ast.F
             new: list[ast.stmt] | None = None
             if not tuples and isinstance(st, ast.Assign) and isinstance(st.targets[0], ast.Tuple) and isinstance(st.value, ast.Tuple):
                 pass
-            elif not ifexp and isinstance(getattr(st, "value", None), ast.IfExp):
-                pass
+            elif not ifexp and isinstance(getattr(st, "value", None), ast.IfExp) and not isinstance(st, ast.Return):
+                pass  # (a conditional *return* is lowered in the first phase already: it creates no new binding)
             elif not ifexp and isinstance(st, ast.Expr) and isinstance(st.value, ast.Call) and len(st.value.args) == 1 and isinstance(st.value.args[0], ast.IfExp):
                 pass
             elif isinstance(st, ast.Assign) and len(st.targets) == 1 and isinstance(st.targets[0], ast.Tuple) and isinstance(st.value, ast.Tuple) \
@@ -1042,6 +1045,18 @@ class _Canon(ast.NodeTransformer):
         return node  # class bodies keep their annotations (dataclass fields)
 
 
+def _while_true_break(fn: ast.FunctionDef) -> None:
+    """``while True: if c: break; rest``  ->  ``while not c: rest`` (no else clause; `continue` re-evaluates the test either way)."""
+    for n in ast.walk(fn):
+        if isinstance(n, ast.While) and not n.orelse and isinstance(n.test, ast.Constant) and n.test.value is True and len(n.body) >= 2:
+            first = n.body[0]
+            if isinstance(first, ast.If) and not first.orelse and len(first.body) == 1 and isinstance(first.body[0], ast.Break) \
+                    and not any(isinstance(x, ast.NamedExpr) for x in ast.walk(first.test)):
+                t = first.test
+                n.test = t.operand if isinstance(t, ast.UnaryOp) and isinstance(t.op, ast.Not) else ast.copy_location(ast.UnaryOp(op=ast.Not(), operand=t), t)
+                n.body = n.body[1:]
+
+
 def _flatten_else(fn: ast.FunctionDef) -> None:
     """``if c: ...; return/raise/continue/break`` ``else: rest``  ->  guard clause followed by ``rest`` (same block)."""
 
@@ -1141,6 +1156,7 @@ def normalize(fn: ast.FunctionDef, cls: ast.ClassDef | None, qual: str, inliner:
     new = inline_locals(new, keep)
     _inline_adjacent(new)
     new = lower(new, tuples=True, ifexp=True)
+    _while_true_break(new)
     _flatten_else(new)
     ast.fix_missing_locations(new)
     return new
